@@ -1,7 +1,173 @@
-import PsModel.Spec.C03
+import PsModel.Lemmas.C03
+/-!
+# C03 – property theorems (a): argument binding of script functions
+
+`PS.bind` = the index loop / pop / bad_kwargs / TRIGGER_KWARGS logic of `EvalFunc.call`; `Spec.bind` = Python's binding
+rules stated per parameter.  The theorems hold for signatures with ANY number of parameters of each kind and calls with
+any number of arguments.  (Name resolution, closures, classes: tied by correspondence only – see the manifest.)
+-/
 namespace PsModel.C03
-/-- placeholder obligation replaced below by the binding theorems -/
+
+/-- **Binding agrees with Python**, for every configuration of the positional-only flag, provided that
+(H1) no *unexpected* keyword is one of the reserved trigger keywords when the function has no `**kwargs`
+(the documented intended deviation), and (H2) either the repair is in, or the function has no `**kwargs`, or no keyword is
+named like a positional-only parameter (finding C03-F1). -/
+theorem C03_bind_partial (cfg : Cfg) (trig : List String) (s : Sig) (args : List Nat) (kw0 : KW)
+    (hwf : WF s kw0)
+    (htrig : s.kwarg = false → ∀ k ∈ kw0.keys, k ∉ Spec.kwNames s → k ∉ trig)
+    (hpo : cfg.posonlyKwToKwargs = true ∨ s.kwarg = false ∨ ∀ k ∈ kw0.keys, k ∉ s.posonly) :
+    PS.bind cfg trig s args kw0 = Spec.bind s args kw0 := by
+  obtain ⟨hnd, _, _⟩ := hwf
+  have hnd' := List.nodup_append.mp hnd
+  have hndP : s.params.Nodup := hnd'.1
+  have hndK : (s.kwonly.map (·.1)).Nodup := hnd'.2.1
+  have hdisj : ∀ p ∈ s.params, p ∉ s.kwonly.map (·.1) := fun p hp hk => hnd'.2.2 p hp p hk rfl
+  have hndPA := List.nodup_append.mp (show (s.posonly ++ s.args).Nodup from hndP)
+  unfold PS.bind
+  rw [posLoop_char cfg s args kw0 s.params 0 kw0 false hndP (fun p _ => ⟨rfl, rfl⟩)]
+  by_cases hN : NoPoKw cfg s kw0 0 s.params
+  · rw [psSlots_of_NoPoKw cfg s args kw0 s.params 0 hN, multFrom_params, badKw_of_NoPoKw cfg s args kw0 s.params 0 hN]
+    unfold Spec.bind
+    by_cases hm : Spec.multiple s args kw0 = true
+    · simp [hm]
+    · simp only [hm, Bool.false_eq_true, if_false]
+      cases hps : Spec.posSlots s args kw0 0 s.params with
+      | none =>
+        simp only [Option.map_none]
+        split <;> (try rfl)
+        split <;> rfl
+      | some sl1 =>
+        simp only [Option.map_some, Bool.or_false, Bool.false_eq_true, if_false]
+        -- the keyword-only loop runs on the keywords left by the positional loop
+        have hinvK : ∀ k ∈ s.kwonly.map (·.1),
+            (kw0.eraseList (takenKw cfg s args kw0 0 s.params)).has k = kw0.has k ∧
+            (kw0.eraseList (takenKw cfg s args kw0 0 s.params)).get k = kw0.get k := by
+          intro k hk
+          have hnt : k ∉ takenKw cfg s args kw0 0 s.params := fun ht =>
+            hdisj k (takenKw_subset cfg s args kw0 s.params 0 k ht) hk
+          exact ⟨KW.has_eraseList _ _ hnt _, KW.get_eraseList _ _ hnt _⟩
+        rw [kwonlyLoop_char kw0 s.kwonly 0 _ hndK hinvK]
+        cases hks : Spec.kwoSlots kw0 0 s.kwonly with
+        | none =>
+          simp only [Option.map_none]
+          split <;> (try rfl)
+          split <;> rfl
+        | some sl2 =>
+          simp only [Option.map_some]
+          -- what is left is exactly the reference's `extras`
+          have hkw2 : (kw0.eraseList (takenKw cfg s args kw0 0 s.params)).eraseList (kwoTaken kw0 s.kwonly)
+              = kw0.filter (fun p => !(Spec.kwNames s).contains p.1) := by
+            rw [KW.eraseList_filter, KW.eraseList_filter, List.filter_filter]
+            apply List.filter_congr
+            intro e he
+            have hhas : kw0.has e.1 = true := (KW.has_iff_mem_keys kw0 e.1).mpr (List.mem_map.mpr ⟨e, he, rfl⟩)
+            have htk : takenKw cfg s args kw0 0 s.params = takenKw cfg s args kw0 s.posonly.length s.args := by
+              have := takenKw_prefix cfg s args kw0 s.posonly 0 s.args (by omega) hN
+              simpa [Sig.params] using this
+            have hmf : multFrom s args kw0 s.posonly.length s.args = false := by
+              have := multFrom_args s args kw0 s.args s.posonly.length (Nat.le_refl _)
+              rw [this]; simpa [Spec.multiple] using hm
+            by_cases hin : e.1 ∈ Spec.kwNames s
+            · have hc : (Spec.kwNames s).contains e.1 = true := by simpa using hin
+              simp only [hc, Bool.not_true]
+              simp only [Spec.kwNames, List.mem_append] at hin
+              rcases hin with ha | hk
+              · have : e.1 ∈ takenKw cfg s args kw0 0 s.params := by
+                  rw [htk]; exact mem_takenKw_args cfg s args kw0 s.args _ (Nat.le_refl _) hmf e.1 ha hhas
+                simp [this]
+              · have : e.1 ∈ kwoTaken kw0 s.kwonly := (mem_kwoTaken kw0 s.kwonly e.1).mpr ⟨hk, hhas⟩
+                simp [this]
+            · have hc : (Spec.kwNames s).contains e.1 = false := by simpa using hin
+              simp only [hc, Bool.not_false]
+              simp only [Spec.kwNames, List.mem_append, not_or] at hin
+              have h1 : e.1 ∉ takenKw cfg s args kw0 0 s.params := by
+                rw [htk]; intro ht; exact hin.1 (takenKw_subset cfg s args kw0 s.args _ e.1 ht)
+              have h2 : e.1 ∉ kwoTaken kw0 s.kwonly := fun ht => hin.2 ((mem_kwoTaken kw0 s.kwonly e.1).mp ht).1
+              simp [h1, h2]
+          rw [hkw2]
+          -- the TRIGGER_KWARGS exemption is vacuous under H1
+          have hall : s.kwarg = false →
+              ((KW.keys (kw0.filter (fun p => !(Spec.kwNames s).contains p.1))).all fun k => trig.contains k)
+                = (kw0.filter (fun p => !(Spec.kwNames s).contains p.1)).isEmpty := by
+            intro hk
+            cases hx : kw0.filter (fun p => !(Spec.kwNames s).contains p.1) with
+            | nil => simp [KW.keys]
+            | cons e es =>
+              have he : e ∈ kw0.filter (fun p => !(Spec.kwNames s).contains p.1) := by rw [hx]; simp
+              have he' := List.mem_filter.mp he
+              have hnot : e.1 ∉ Spec.kwNames s := by simpa using he'.2
+              have := htrig hk e.1 (List.mem_map.mpr ⟨e, he'.1, rfl⟩) hnot
+              simp [KW.keys, this]
+          cases hkw : s.kwarg with
+          | true => simp [hkw]
+          | false =>
+            simp only [hkw, Bool.not_false, Bool.true_and, hall hkw]
+  · -- some positional-only parameter is (wrongly) matched by a keyword: both sides fail
+    have hPS : (psSlots cfg s args kw0 0 s.params).map (fun sl =>
+        (sl, kw0.eraseList (takenKw cfg s args kw0 0 s.params), false || badKw cfg s args kw0 0 s.params)) = none ∨
+        badKw cfg s args kw0 0 s.params = true := by
+      rcases fail_of_not_NoPoKw cfg s args kw0 s.params 0 hN with h | h
+      · left; simp [h]
+      · right; exact h
+    obtain ⟨p, hp, hh, hflag⟩ := exists_of_not_NoPoKw cfg s kw0 s.params 0 hN
+    have hppo : p ∈ s.posonly := by
+      simp only [Nat.sub_zero, Sig.params, List.take_left'] at hp
+      exact hp
+    have hkey : p ∈ kw0.keys := (KW.has_iff_mem_keys kw0 p).mp hh
+    have hkwarg : s.kwarg = false := by
+      rcases hpo with h | h | h
+      · simpa [h] using hflag
+      · exact h
+      · exact absurd hppo (h p hkey)
+    have hnotin : p ∉ Spec.kwNames s := by
+      simp only [Spec.kwNames, List.mem_append, not_or]
+      exact ⟨fun ha => hndPA.2.2 p hppo p ha rfl, hdisj p (by simp [Sig.params, hppo])⟩
+    have hne : (kw0.filter fun q => !(Spec.kwNames s).contains q.1).isEmpty = false := by
+      obtain ⟨e, he, rfl⟩ := List.mem_map.mp hkey
+      have : e ∈ kw0.filter fun q => !(Spec.kwNames s).contains q.1 :=
+        List.mem_filter.mpr ⟨he, by simpa using hnotin⟩
+      cases hx : kw0.filter fun q => !(Spec.kwNames s).contains q.1 with
+      | nil => rw [hx] at this; simp at this
+      | cons a b => rfl
+    have hc : (!s.kwarg && !(kw0.filter fun q => !(Spec.kwNames s).contains q.1).isEmpty) = true := by
+      rw [hkwarg, hne]; rfl
+    have hspec : Spec.bind s args kw0 = none := by
+      unfold Spec.bind
+      simp only [hc, if_true]
+      split <;> rfl
+    rw [hspec]
+    rcases hPS with h | h
+    · rw [h]
+    · cases hsl : psSlots cfg s args kw0 0 s.params with
+      | none => rfl
+      | some sl => simp [h]
+
+/-- **Today's code** (flag off). -/
+theorem C03_bind_current_partial (s : Sig) (args : List Nat) (kw0 : KW) (hwf : WF s kw0)
+    (htrig : s.kwarg = false → ∀ k ∈ kw0.keys, k ∉ Spec.kwNames s → k ∉ Gen.TRIGGER_KWARGS)
+    (hpo : s.kwarg = false ∨ ∀ k ∈ kw0.keys, k ∉ s.posonly) :
+    PS.bind Current.cfg Gen.TRIGGER_KWARGS s args kw0 = Spec.bind s args kw0 :=
+  C03_bind_partial Current.cfg Gen.TRIGGER_KWARGS s args kw0 hwf htrig (Or.inr hpo)
+
+/-- **Full statement for the repaired loop**: no positional-only hypothesis left. -/
+theorem C03_bind_full (trig : List String) (s : Sig) (args : List Nat) (kw0 : KW) (hwf : WF s kw0)
+    (htrig : s.kwarg = false → ∀ k ∈ kw0.keys, k ∉ Spec.kwNames s → k ∉ trig) :
+    PS.bind { posonlyKwToKwargs := true } trig s args kw0 = Spec.bind s args kw0 :=
+  C03_bind_partial _ trig s args kw0 hwf htrig (Or.inl rfl)
+
+/-- witness of C03-F1: `def f(p, /, **kw)` called `f(1, p=2)` -/
 theorem C03_cex_posonly_kwargs :
     PS.bind Current.cfg Gen.TRIGGER_KWARGS ⟨["p"], [], 0, [], false, true⟩ [1] [("p", 2)]
       ≠ Spec.bind ⟨["p"], [], 0, [], false, true⟩ [1] [("p", 2)] := by decide
+
+/-- the intended deviation: a reserved trigger keyword that no parameter accepts is dropped, nothing else changes -/
+theorem C03_trigger_kw_example :
+    PS.bind Current.cfg Gen.TRIGGER_KWARGS ⟨[], ["a"], 0, [], false, false⟩ [1] [("trigger_type", 5)]
+      = PS.bind Current.cfg Gen.TRIGGER_KWARGS ⟨[], ["a"], 0, [], false, false⟩ [1] [] ∧
+    Spec.bind ⟨[], ["a"], 0, [], false, false⟩ [1] [("trigger_type", 5)] = none := by decide
+
+/-- non-vacuity of the hypotheses on a signature with every parameter kind -/
+example : WF ⟨["p"], ["a", "b"], 1, [("k", true), ("m", false)], true, true⟩ [("b", 1), ("m", 2), ("zz", 3)] := by
+  refine ⟨by decide, by decide, by decide⟩
+
 end PsModel.C03
